@@ -9,4 +9,4 @@ for c in "$@"; do
   echo "$out" | grep -E "^VIOLATION|^MACHINERY" | head -2
   echo "$out" | grep -E "^  reason" | head -1 | cut -c1-300
 done
-cd /repo && git checkout -- . && git status --short | head -2; cd /verif && ./vc build checked >/dev/null 2>&1
+cd /repo && git checkout -- . && git status --short | head -2; cd /verif && ./vc build all >/dev/null 2>&1
